@@ -679,6 +679,35 @@ def errorsOracle (c : Case) (impl : String) : String :=
     let ps := (errs.map (errorProblems c)).foldl (· ++ ·) []
     if ps.isEmpty then "ok" else "FAIL C13: " ++ " && ".intercalate ps
 
+/-- C13, "boundary errors quote the actual extents": a boundary error raised for a list segment
+whose item accepts a proper, non-empty prefix of the segment (PEG reference on the segment's kept
+tokens) must end its parsed extent where that prefix ends — not before, and not after the first
+token the item left. -/
+def boundaryProblems (c : Case) (errs : List String) (item : G) (sep : Nat) (abort : List Nat) : List String :=
+  if !Spec.supported item || anyFilterChange c.g then [] else
+  let view := (initialPState c).view
+  let body := view.takeWhile (fun r => !abort.contains r.tok.kind)
+  let segs := Spec.splitAtSep sep body
+  errs.filterMap fun e =>
+    let b := ((e.splitOn "]").drop 1 |> "]".intercalate)
+    if !b.startsWith "boundary{" then none else
+    match parseDotSpan (fieldOf b "es") with
+    | none => none
+    | some es =>
+      match segs.find? (fun seg => (seg.head?.map (·.start.byte)) == some es.s.byte) with
+      | none => none
+      | some seg =>
+        match Spec.peg c.text 4000 item ⟨seg, .eot, c.filter⟩ with
+        | .ok _ s1 =>
+          let consumed := seg.length - s1.view.length
+          if consumed == 0 || s1.view.isEmpty then none else
+          match seg[consumed - 1]? with
+          | some last =>
+            if es.e.byte == last.stop.byte then none
+            else some s!"the boundary error {e} does not quote the extent of what was parsed (it ends at byte {last.stop.byte})"
+          | none => none
+        | _ => none
+
 def termOracle (impl : String) : String :=
   if impl == "timeout" || (impl.splitOn "#").any (· == "timeout") then "FAIL C02: the parse did not terminate" else "ok"
 
@@ -764,7 +793,20 @@ def run (fam : String) (fields : List String) : String × String :=
         | some msg => "FAIL " ++ famProp fam ++ ": re-applying the same parser object to the same input: " ++ msg
         | none => "ok"
       | none => "ok"
-    let extra := [nopanicOracle impl, c03, c03e, c13b, reapply] ++
+    -- C13 on boundary errors of list segments
+    let c13x :=
+      if fam != "list" then "ok" else
+      match parseObs impl with
+      | some o =>
+        if o.results.length != 1 then "ok" else
+        let errs := (o.results.filterMap fun r => if r.startsWith "err:" then some (r.drop 4).toString else none) ++ o.sink
+        let ps := match c.g with
+          | .list _ _ _ _ item sep abort => boundaryProblems c errs item sep abort
+          | .both (.list _ _ _ _ item sep abort) _ => boundaryProblems c errs item sep abort
+          | _ => []
+        if ps.isEmpty then "ok" else "FAIL C13: " ++ " && ".intercalate ps
+      | none => "ok"
+    let extra := [nopanicOracle impl, c03, c03e, c13b, c13x, reapply] ++
       (if fam == "errors" || fam == "twice" then [] else [errV])
     let fails := ([verdict] ++ extra).filterMap fun v =>
       if v.startsWith "FAIL " then some (v.drop 5).toString else none
